@@ -1,4 +1,5 @@
 import PacketVerif.Model.Dhcp4Opt
+import PacketVerif.Model.Dhcp4InPlace
 namespace PV.Drv.Dhcp4Opt
 open PV PV.Model.Dhcp4Opt
 
@@ -23,6 +24,53 @@ def showOpts (o : Opts) : String :=
 
 def isPerm (a b : List UInt8) : Bool :=
   a.length == b.length && a.all (fun x => a.count x == b.count x)
+
+/-! `dhcp.inplace <hex backing array> <opcode> <mt> <chaddr|~> <ciaddr|~> <yiaddr|~> <xid|~> <bcast> <opts> <order> <wire|~>`:
+    `EncodeDHCP4` IN PLACE (`Model.Dhcp4Opt.encodeDHCP4Mem`): an option value / the order list is `<hex>` (a value of
+    its own) or `@<off>+<len>` (a window of the backing array).  Reply: the memory-level result; when no header write
+    touches a window, ` | values <r>` = the value-level `encodeDHCP4` of the call-time values (must be the same). -/
+
+def parseSrc (s : String) : Option Src :=
+  match s.toList with
+  | '@' :: cs =>
+    match (String.ofList cs).splitOn "+" with
+    | [o, l] => do some (.ref (← o.toNat?) (← l.toNat?))
+    | _ => none
+  | _ => (fromHex s).map .lit
+
+def parseSrcOpts (s : String) : Option (List (UInt8 × Src)) :=
+  if s == "-" then some []
+  else (s.splitOn ",").mapM (fun kv =>
+    match kv.splitOn "=" with
+    | [k, v] => do some (UInt8.ofNat (← k.toNat?), ← parseSrc v)
+    | _ => none)
+
+def showEnc (o : Outcome Bytes) : String :=
+  match o with
+  | .ok [] => "nil"
+  | .ok p => "ok " ++ toHex p
+  | .panic => "panic"
+  | .err _ => "err"
+  | .hang => "hang"
+
+def srcUntouched (ws : List (Nat × Bytes)) : Src → Bool
+  | .lit _ => true
+  | .ref off len => ws.all (fun w => decide (off + len ≤ w.1) || decide (w.1 + w.2.length ≤ off))
+
+def inplace (m : Bytes) (a : MArgs) (wire : String) : String :=
+  let m1 := applyWrites m (hdrWrites a)
+  let optsV : Opts := optSet (a.opts.map (fun e => (e.1, e.2.read m1))) 53 [a.mt]
+  let r := orderedPhase (fullOrder (a.order.read m1)) optsV
+  let remaining := r.2.map (·.1)
+  let tail := match (if wire == "nil" then none else (optHex? wire).join) with
+    | some w => w.drop r.1.length
+    | none => remaining
+  if !isPerm tail remaining then "bad-tail"
+  else
+    let mem := showEnc (encodeDHCP4Mem m a tail)
+    if a.opts.all (fun e => srcUntouched (hdrWrites a) e.2) && srcUntouched (hdrWrites a) a.order then
+      mem ++ " | values " ++ showEnc (encodeDHCP4 m (a.values m) tail)
+    else mem
 
 def handle (cmd : String) (args : List String) : Option String :=
   match cmd, args with
@@ -55,6 +103,12 @@ def handle (cmd : String) (args : List String) : Option String :=
       | .panic => some "panic"
       | .err _ => some "err"
       | .hang => some "hang"
+  | "dhcp.inplace", [hb, opcode, mt, ch, ci, yi, xid, bc, opts, order, wire] => do
+    let m ← fromHex hb
+    let a : MArgs := { opcode := UInt8.ofNat (← opcode.toNat?), mt := UInt8.ofNat (← mt.toNat?), chaddr := ← optHex? ch,
+                       ciaddr := ← optHex? ci, yiaddr := ← optHex? yi, xid := ← optHex? xid, broadcast := bc == "1",
+                       opts := ← parseSrcOpts opts, order := ← parseSrc order }
+    some (inplace m a wire)
   | _, _ => none
 
 end PV.Drv.Dhcp4Opt
